@@ -505,6 +505,55 @@ def check(ctx):
     check_B8(ctx, prod)
     check_B9(ctx, prod)
     check_B11(ctx, prod)
+    check_B12(ctx, prod)
+
+
+def check_B12(ctx, facts, rule='C17.B12'):
+    """B12: LMDB hands entries out in the BYTE order of the encoded key.  Ids are encoded little-endian (`U64<LittleEndian>`), so the order of
+    iteration is not the numeric order of the ids (256 = 00 01 .. sorts before 1 = 01 00 ..).  A necessary condition of listing exactly what is
+    stored: no ordering comparison (<, <=, >, >=, cmp) is made between two ids that both come out of iterating such a database — a merge-join /
+    cursor walk that assumes numeric order misclassifies or skips entries once an id >= 256 is stored.  (Round 8, C07h: the tombstone flag of
+    iter_metadata computed by walking the live-document cursor next to the metadata cursor.)  Expected count zero; the iterations themselves
+    are the positive control."""
+    L = 'datacake_lmdb'
+    n_iter = 0
+    n_cmp = 0
+    hits = []
+    for b in facts.bodies.values():
+        if b.crate != L or b.d['promoted'] or b.derived:
+            continue
+        srcs = []
+        for _blk, t in b.calls():
+            n_ = cname(t) or ''
+            if re.search(r'heed::.*Database.*::(iter|iter_mut|rev_iter|range|rev_range|prefix_iter|first|last)$', n_) or \
+                    re.search(r'heed::(db::|databases::|)?.*::(RoIter|RwIter|RoRange|RoPrefix).*::(next|last)$', n_):
+                ga = ' '.join(t.get('gargs') or []) + ' ' + ' '.join(str(b.local_ty(op_local(a))) for a in (t.get('args') or [])[:1] if op_local(a) is not None)
+                if 'LittleEndian' in ga:
+                    srcs.append(t['dest']['l'])
+        if not srcs:
+            continue
+        n_iter += len(srcs)
+        fl = Flow(b, all_calls=True)
+        der = fl.forward(srcs)
+        for c in all_comparisons(b):
+            if c['rel'] in ('<', '<=', '>', '>=') and c['lhs'] in der and c['rhs'] in der:
+                n_cmp += 1
+                hits.append((b, c))
+        for _blk, t in b.calls():
+            n_ = cname(t) or ''
+            if re.match(r'core::cmp::(Ord|PartialOrd)::(cmp|partial_cmp|max|min)$', n_) and len(t['args']) == 2:
+                l0, l1 = op_local(t['args'][0]), op_local(t['args'][1])
+                if l0 in der and l1 in der:
+                    n_cmp += 1
+                    hits.append((b, {'line': t['cs'], 'rel': last_seg(n_)}))
+    ctx.floor(rule, 'iterations over an LMDB database with little-endian integer keys', n_iter, 1)
+    for b, c in hits:
+        ctx.bad(rule, 'order-assumed|%s' % strip_generics(b.name), site(b, c['line']),
+                'two ids that both come out of iterating a database keyed by U64<LittleEndian> are compared with `%s`: LMDB iterates in the byte order of the '
+                'encoded key, which is not the numeric order for little-endian integers (256 comes before 1) — a walk that assumes numeric order skips or '
+                'misclassifies entries (live documents listed as tombstones) as soon as an id >= 256 is stored' % c['rel'])
+    if not hits:
+        ctx.ok(rule, 'order-assumed|none', '', '%d iteration(s) over little-endian-keyed databases; no ordering comparison between two ids obtained from them' % n_iter)
 
 
 def check_B11(ctx, facts):
